@@ -9,7 +9,7 @@ git diff --quiet || { echo "/repo has uncommitted changes"; exit 2; }
 git apply "$patch" || { echo "patch does not apply"; exit 2; }
 mkdir -p /verif/.work/seedrun
 for p in "$@"; do
-  log=/verif/.work/seedrun/$(basename $(dirname "$patch"))_$p.log
+  log=/verif/.work/seedrun/$(basename $(dirname "$patch"))_$(basename "$patch" .diff)_$p.log
   /verif/bin/govc check -prop $p -tier quick -out /verif/.work/seedrun > $log 2>&1
   rc=$?
   echo "  $p: exit $rc; $(grep -c '^VIOLATION' $log) violation line(s); $(grep '^VIOLATION' $log | head -3 | sed -E 's/replay=[^ ]+\/([^ /]+)/replay=\1/' | cut -c1-220 | tr '\n' '|')"
